@@ -681,7 +681,11 @@ class PlanJoinTablesQuery:
                 if self.is_model_argument(item, el):
                     column, value = self.get_column_and_value(el)
                     if isinstance(value, (Constant, Parameter)):
-                        row_dict[column.parts[-1]] = value.value
+                        col_name = column.parts[-1]
+                        if col_name in row_dict:
+                            # the same as for 'select from model': the first value must not get lost
+                            raise PlanningException(f'Multiple values provided for {column.to_string()}')
+                        row_dict[col_name] = value.value
 
                     # exclude condition
                     el._orig_node.args = [Constant(0), Constant(0)]
